@@ -254,6 +254,13 @@ def material(w, as_expr=False, soup=None, sources=None, op_kind='app'):
     if kind == 'c':
         n = copy_material(w, soup)
         return n.expr if as_expr else n
+    if kind == 'o':                                     # the node at the path itself, as navigation gives it
+        if soup is None:
+            raise BadPath('o: material needs the document')
+        n = node_for(soup, parse_path(payload))
+        if op_kind == 'ins':
+            n = n.copy()                                # insert demands parentless nodes
+        return n.expr if as_expr else n
     if kind == 'd':
         if as_expr:
             raise OutOfDomain('a whole document in an argument list')
@@ -413,7 +420,7 @@ def model_batch(lines, driver=None, timeout=900):
 
 # ----------------------------------------------------------------------------- generators
 
-TEXTS = [' y', ' z ', '1', '.', ' a b', ' ', '\n', '  ', ' y']
+TEXTS = [' y', ' z ', '1', '.', ' a b', ' ', '\n', '  ', ' y', '\n\nw', '%c\n']
 CMDS = ['\\x', '\\y', '\\x', '\\textbf{b}', '\\textbf{b \\x}', '\\sec[o]{p}', '\\sec[o]{p \\x}',
         '\\x{a}{a}', '\\ref{k}', '\\def\\foo']
 NAMES = ['x', 'y', 'textbf', 'item', 'itemize', 'q']
@@ -590,6 +597,17 @@ def past_end(rng, ln):
     return rng.choice([ln + 1, ln + 2, ln + 10, 99, 1000])
 
 
+def self_replacements(p):
+    """Replacement lists (material words) for the node at path p that mention the node itself
+    (`o:`) or its `.copy()` (`c:`, the same expression): wrap, text behind, text before, twice
+    with a separator, itself only.  [(words, aliased)]: `aliased` = the object ends up twice."""
+    o, c = 'o:' + p, 'c:' + p
+    return [('s:%s,%s,s:%s' % (enc('['), o, enc(']')), False), ('%s,s:%s' % (o, enc('!')), False),
+            ('s:%s,%s,s:%s' % (enc('{'), c, enc('}')), False), ('%s,s:%s' % (c, enc('!')), False),
+            ('s:%s,%s' % (enc('!'), o), False), (o, False), ('n:%s,%s,n:%s' % (enc('\\x'), c, enc('\\x')), False),
+            ('%s,s:%s,%s' % (o, enc(' / '), o), True), ('%s,%s' % (o, c), True)]
+
+
 def neg_indices(ln):
     return sorted({-1, -2, -ln, -ln - 1, -99} - {0})
 
@@ -621,8 +639,12 @@ def gen_op(rng, soup, docs=0.0):
     if kind == 'del':
         return 'del ' + show_path(rng.choice(targets)[0])
     if kind == 'rep':
-        return 'rep %s %s' % (show_path(rng.choice(targets)[0]),
-                              gen_mats(rng, 0 if rng.random() < 0.1 else 1, 3, docs=docs))
+        p = show_path(rng.choice(targets)[0])
+        if rng.random() < 0.15:                         # the target itself (or its copy()) among 2..3 pieces
+            ms = gen_mats(rng, 1, 2, docs=docs).split(',')
+            ms.insert(rng.randint(0, len(ms)), rng.choice(['o:', 'c:']) + p)
+            return 'rep %s %s' % (p, ','.join(ms))
+        return 'rep %s %s' % (p, gen_mats(rng, 0 if rng.random() < 0.1 else 1, 3, docs=docs))
     named = [t for t in targets if sloppy or isinstance(t[1], (D.TexCmd, D.TexNamedEnv))]
     if kind == 'ren' and named:
         return 'ren %s %s' % (show_path(rng.choice(named)[0]), enc(rng.choice(NAMES)))
@@ -675,6 +697,7 @@ def alphabet(soup):
         ops.append('rep %s _' % p)
         for m in BFS_MATS:
             ops.append('rep %s %s' % (p, m))
+        ops.append('rep %s s:%s,o:%s,s:%s' % (p, enc('['), p, enc(']')))
         if isinstance(x, (D.TexCmd, D.TexNamedEnv)):
             ops.append('ren %s %s' % (p, enc('y')))
             ops.append('args %s _' % p)
@@ -975,7 +998,7 @@ def fresh_list(w, as_expr=False, soup=None, sources=None, op_kind='app'):
         return []
     out = []
     for x in w.split(','):
-        if x[0] in 'ic':                                # transplanted: the real, shared object
+        if x[0] in 'ico':                               # transplanted: the real, shared object
             out.append(material(x, as_expr, soup, sources, op_kind))
         else:
             out.append(fresh(x, as_expr))
@@ -1339,13 +1362,17 @@ def check_untouched(before, soup, site):
     if kind == 'list':
         q, h, s, d, new = tuple(site['q']), tuple(site['h']), site['s'], site['d'], site['new']
         shift = len(new) - d
+        newids = set()                                  # the target itself may be among its replacement pieces
+        for m in new:
+            if _is_expr(m):
+                newids |= _subtree_ids(m)
         for path, x in before:
             inside = _starts(path, q) and len(path) > len(q) and path[len(q)][:-1] == h
             np = path
             if inside:
                 j = path[len(q)][-1]
                 if s <= j < s + d:
-                    if _is_expr(x) and id(x) in idset:
+                    if _is_expr(x) and id(x) in idset and id(x) not in newids:
                         return 'removed element %s is still in the tree' % show_path(path)
                     continue
                 if j >= s + d:
@@ -1599,7 +1626,7 @@ def gen_history(rng, source, n, aop_share=0.2, docs_any=False):
         op = op or gen_op(rng, soup, DOC_SHARE if (docs_any or k == n - 1) else 0.0)
         ops.append(op)
         try:
-            P = Op(op)
+            P = Op(op, soup)
             if resolve(soup, P)[0] != 'skip':
                 perform(soup, P, step_variant(k, op))
         except Exception:
@@ -1896,6 +1923,8 @@ def mat_show(m):
         return 'node at %s of TexSoup(%r)' % (sel, dec(src))
     if m[0] == 'c':
         return 'copy() of the node at %s' % m[2:]
+    if m[0] == 'o':
+        return 'the node at %s itself' % m[2:]
     if m[0] == 'g':
         return 'the first argument of %s' % dec(m[2:])
     if m[0] == 'd':
